@@ -99,7 +99,9 @@ def run_case(inp):
             tmpl = r.integers(1, 9, size=shape).astype(np.float32)
             c = (np.array(shape) - 1) / 2
             nm = inp["nmol"]
-            corners = np.array([[int(r.integers(-2, N[d] - shape[d] + 3)) for d in range(3)] for _ in range(nm)])
+            lows = [min(-2, N[d] - shape[d] - 1) for d in range(3)]
+            corners = np.array([[int(r.integers(lows[d], max(N[d] - shape[d] + 3, lows[d] + 2))) for d in range(3)]
+                                for _ in range(nm)])
             pos_px = corners + c                                  # voxel-coincident poses
             sim = TomogramSimulator(order=order, scale=scale)
             sim.add_molecules(Molecules(pos_px * scale), tmpl)
@@ -198,6 +200,12 @@ def oracle(rng, thorough, deep=False, hints=None):
         cases.append(dict(kind="exact", tshape=list(tshapes[it % len(tshapes)]), scale=float(rng.choice([1.0, 0.5, 1.625])),
                           order=int(rng.choice([0, 1, 3])), volume=[int(x) for x in rng.integers(14, 22, size=3)],
                           nmol=[1, 3, 1, 4][it % 4], seed=int(rng.integers(0, 10 ** 6))))
+    # volumes thinner than the template: fragments overhang both opposite faces
+    for it in range(6 if big else 3):
+        vol = [int(x) for x in rng.integers(14, 22, size=3)]
+        vol[it % 3] = int(rng.integers(2, 5))
+        cases.append(dict(kind="exact", tshape=list(tshapes[it % len(tshapes)]), scale=float(rng.choice([1.0, 0.5])),
+                          order=int(rng.choice([0, 1, 3])), volume=vol, nmol=[1, 2][it % 2], seed=int(rng.integers(0, 10 ** 6))))
     for it in range(6 if big else 2):
         cases.append(dict(kind="order", tshape=[9, 10, 11], scale=1.0, order=1, volume=[24, 24, 24], seed=int(rng.integers(0, 10 ** 6))))
     for it in range(10 if big else 4):
